@@ -464,7 +464,7 @@ CHECKS["C12"] = dict(
 _ADD = {
     "C01": " A quarter of the cases run after a pool history (see C02); UpdateContext steps are accompanied by a copy of the logger taken "
            "before the update and updated afterwards (its field must never show).",
-    "C02": " RawCBOR is part of the length sweep (data URL of the standard base64 text)." " Nesting-depth sweep 0..300 (dictionaries in dictionaries, a chain of object marshalers in a context array)." " Exhaustive sweeps: every Unicode code point (1 114 112, surrogates also as raw bytes) as key, text, bytes, slice / array / dict / "
+    "C02": " Address-length sweep (MAC and IP values of 0..300 bytes in their text forms) and instant sweep (year 1..9999, binary-exact fractions, two zones)." " RawCBOR is part of the length sweep (data URL of the standard base64 text)." " Nesting-depth sweep 0..300 (dictionaries in dictionaries, a chain of object marshalers in a context array)." " Exhaustive sweeps: every Unicode code point (1 114 112, surrogates also as raw bytes) as key, text, bytes, slice / array / dict / "
            "context member and message; every length 0..1100 and around 2^16 for keys, text, bytes, hex, messages and typed slices; every "
            "prefix length of both address families - each read back with the harness's parser and encoding/json."
            " Half of the cases run after a pool history: filtered, discarded and unfinished events that were handed arrays, dictionaries and "
@@ -473,28 +473,28 @@ _ADD = {
            "what Level was given." " WithLevel(Panic/Fatal), Info and Log are also called right after a Panic() event that was written, discarded by the caller or by a hook, "
            "sampled out or filtered (and recovered from). During the inertness sweep the package-level callbacks (TimestampFunc, the error / stack / interface / caller / level marshal "
            "functions) are replaced by counting ones.",
-    "C06": " Events that are discarded outside any hook and finalized all the same (directly, inside Func) precede a share of the chains." " Some workers fetch the base logger from a shared context for every event while a goroutine attaches disabled loggers to that context."
+    "C06": " Destination kind 10: ConsoleWriter over a diode writer." " Events that are discarded outside any hook and finalized all the same (directly, inside Func) precede a share of the chains." " Some workers fetch the base logger from a shared context for every event while a goroutine attaches disabled loggers to that context."
            " An error-stack marshaler is installed; one worker kind logs With().Stack(), a third of the chains record errors inside nested "
            "dictionaries, objects and arrays." " Destination kind 9: half of the workers reach a SyncWriter-wrapped destination through SyncWriter(SyncWriter(dest))."
            " Next to the console destinations another goroutine logs through a ConsoleWriter whose destination refuses or truncates every line."
            " Some chains start with Logger.Panic() (recovered): the event carries a completion callback while other goroutines take events "
            "from the same pool.",
-    "C08": " The same code-point, length, nesting-depth and prefix-length sweeps as C02 run in the binary build through the bundled decoder."
+    "C08": " Instant sweep year 1..9999 with binary-exact fractions: the decoded instant is the logged one at any distance from 1970." " The same code-point, length, nesting-depth and prefix-length sweeps as C02 run in the binary build through the bundled decoder."
            " The settings include caller-supplied InterfaceMarshalFunc values (wrapping, always failing): whatever they render, both builds "
            "must show the same.",
-    "C14": " The package's ConsoleWriter as a fan-out destination (five shapes, healthy and failing neighbour): nothing spurious is reported, a neighbour's error is." " Half of the scripted errors are net.Error values with Timeout() and Temporary() true." " A third of the multi-destination cases use a shared-base fan-out (Multi(Multi(Multi(w0,w1),w2..), last) with two more writers "
+    "C14": " Every logging call runs in its own goroutine: a call parked on a lock inside zerolog on three consecutive looks is reported (logging-call-never-returns)." " The package's ConsoleWriter as a fan-out destination (five shapes, healthy and failing neighbour): nothing spurious is reported, a neighbour's error is." " Half of the scripted errors are net.Error values with Timeout() and Temporary() true." " A third of the multi-destination cases use a shared-base fan-out (Multi(Multi(Multi(w0,w1),w2..), last) with two more writers "
            "extending the same base: their destinations must receive nothing)." " A fifth of the cases reach the destinations through a logger derived with Output(root); a third of the events carry nested "
            "dictionaries and an array of dictionaries (several pooled objects at once, also right after a failed write)."
            " Panic-level events start with Logger.Panic() (recovered) in half of the cases.",
     "C15": " Some bodies end in CR LF or consist of CR LF only.",
-    "C17": " Six streams whose event boundaries fall on (and next to) multiples of the decoder's 4096-byte read buffer are cut at every offset."
+    "C17": " Well-formed events whose level / time / message / error / caller / stack members hold every kind of value are fed to every consumer (ConsoleWriter, journald)." " Six streams whose event boundaries fall on (and next to) multiples of the decoder's 4096-byte read buffer are cut at every offset."
            " In the binary build every strict prefix of a single event is also handed to ConsoleWriter.Write, which must return an error."
            " G goroutines (2-16, GOMAXPROCS 1/2/16) decode their own valid or truncated streams at the same time through all entry points, also into "
            "a destination that yields inside Write: every result must equal the same decode done alone (also under the race detector)."
            " Text contents are also enumerated from 18 units (ASCII needing escapes, well-formed multi-byte runes incl. U+FFFD, truncated / "
            "overlong / surrogate / out-of-range sequences) up to three units, in six positions. A shard whose input runs for 20 s stops with "
            "a suspicion; the witness is decoded alone under RLIMIT_CPU (200 CPU-seconds) and reported as non-termination if it uses them up.",
-    "C18": " Request targets include absolute-form URLs (with and without path, userinfo, port) and escaped paths." " In a third of the rounds every request context derives from one shared context that already carries a logger (BaseContext); that "
+    "C18": " Every fifth request uses a standard method (HEAD, GET, POST, OPTIONS, CONNECT, PUT)." " Request targets include absolute-form URLs (with and without path, userinfo, port) and escaped paths." " In a third of the rounds every request context derives from one shared context that already carries a logger (BaseContext); that "
            "logger must be unchanged afterwards." " Remote addresses include bare IPv6 literals without port.",
     "C03": " Msgf finalizers are also written without operands, with text that means something to fmt (escaped / dangling percent signs, verbs "
            "without operands); the slice handed to Hook(...) is overwritten by the caller afterwards.",
@@ -504,8 +504,8 @@ _ADD = {
     "C12": " Poll intervals of 1..9 ns; a consumer that is runnable or running inside the poller for 400 consecutive looks without a poll or delivery while work is pending is reported (consumer-spins-without-polling)." " When Close has returned, messages not delivered must be covered by what the alerter was told (not only by positions the consumer "
            "skipped)." " One run in eight contains a zero-length message (Write(nil) / Write([]byte{})).",
     "C10": " A payload mode with total lengths of exactly 500 / 512 / 576 bytes (the capacities of pooled buffers) and one byte off, followed by short payloads." " One run in eight contains a zero-length message.",
-    "C07": " TimestampFunc steps 1.5 s per reading and rotates over three zones." " Long typed slices: 15 slice kinds x 100..5600 elements (encoded size <= 56 000 bytes) must be allocation-free once the pooled buffer has grown.",
-    "C09": " Exhaustive sweeps read with the independent parser: every code point (text strings carry the logged bytes verbatim, byte strings "
+    "C07": " Type is also given value-typed variables (boxed at the call)." " TimestampFunc steps 1.5 s per reading and rotates over three zones." " Long typed slices: 15 slice kinds x 100..5600 elements (encoded size <= 56 000 bytes) must be allocation-free once the pooled buffer has grown.",
+    "C09": " Address-length sweep (tag 260 around 0..300 bytes) and instant sweep (tag 1 around the exact seconds)." " Exhaustive sweeps read with the independent parser: every code point (text strings carry the logged bytes verbatim, byte strings "
            "the logged bytes) and every length 0..1100 and around 2^16 for keys, text, bytes, hex (tag 263), messages and typed slices.",
     "C11": " Fatal children whose own fatal event is suppressed (disabled level, global level, zero sampler, discarding hook) must still deliver what was written before."
            " Fatal children also put a ConsoleWriter (value, pointer, inside a MultiLevelWriter, from NewConsoleWriter via Output) in front of the diode."
@@ -516,7 +516,7 @@ _ADD = {
     "C16": " A third of the constructor-made writers are built with another configuration and reconfigured afterwards through their exported fields."
            " Every Unicode code point is rendered inside a field name, a field value, a slice, a dictionary, an error text and the message "
            "(1 114 112 events from the real logger, compared with the reference renderer)." " One program in eight has events with dozens of fields (FieldsOrder over more than 16 names)." " Before a fifth of the renderings another ConsoleWriter edits, in place, the PartsOrder its constructor gave it.",
-    "C19": " Paths with a second caller hook: every caller member of the event names the user's site." " Loggers built with CallerWithSkipFrameCount(n) while the global count equals n are used under another global count."
+    "C19": " Explicit Caller(j) under a raised global skip count." " Paths with a second caller hook: every caller member of the event names the user's site." " Loggers built with CallerWithSkipFrameCount(n) while the global count equals n are used under another global count."
            " Logger.Write is also called with empty, nil, newline-only and newline-less payloads." " Helper chains 5 to 1000 frames deep report their caller with one CallerSkipFrame(N+2) or N+2 calls of CallerSkipFrame(1)."
            " Every third statement runs after a pool history: events discarded (by the caller or a hook), filtered, panicking or written "
            "elsewhere, with skip counts of their own.",
@@ -545,3 +545,6 @@ CHECKS["C08"]["require"]["nesting_depths_logged"] = 301
 CHECKS["C14"]["require"]["console_destination_cases"] = 20
 CHECKS["C13"]["require"]["burst_histories_with_replaced_clock_function"] = 1000
 CHECKS["C19"]["require"]["events_with_several_caller_members"] = 50
+CHECKS["C17"]["require"]["consumer_key_inputs"] = 100
+CHECKS["C09"]["require"]["address_lengths_logged"] = 301
+CHECKS["C08"]["require"]["far_instants_logged"] = 160
